@@ -43,8 +43,8 @@ def one(patch):
         if a.returncode:
             return name + " PATCH DOES NOT APPLY " + a.stderr[:200]
         out = {"patch": name, "alarms": {}, "undecided": {}, "machinery": {}}
-        mk = re.search(r"(R\d)", name)
-        area = AREA.get(mk.group(1)) if mk and not os.environ.get("REFAC_ALL_PROPS") else None
+        mk = re.search(r"R(\d+)", name)
+        area = AREA.get("R%d" % ((int(mk.group(1)) - 1) % 5 + 1)) if mk and not os.environ.get("REFAC_ALL_PROPS") else None
         for pr, (rc, keys, rules, und, mach) in sorted(run_all(wt, area).items()):
             if keys:
                 out["alarms"][pr] = keys[:6]
